@@ -126,6 +126,60 @@ func reuseTable() []reuse {
 				}},
 		)
 	}
+	// ---- BLS public keys (incl. the identity encoding, which decodes but must never validate)
+	{
+		msg := []byte("c11 bls message")
+		mk1 := func() ([][]byte, []byte) {
+			var enc [][]byte
+			var sig0 []byte
+			for i := 0; i < 2; i++ {
+				a, _ := bls.KeyGen[bls.G1](sd(32, 110+uint64(i)), nil, nil)
+				enc = append(enc, mb(a.PublicKey().MarshalBinary()))
+				if i == 0 {
+					sig0 = bls.Sign(a, msg)
+				}
+			}
+			id := make([]byte, len(enc[0]))
+			id[0] = 0xc0
+			return append(enc, id), sig0
+		}
+		mk2 := func() ([][]byte, []byte) {
+			var enc [][]byte
+			var sig0 []byte
+			for i := 0; i < 2; i++ {
+				a, _ := bls.KeyGen[bls.G2](sd(32, 120+uint64(i)), nil, nil)
+				enc = append(enc, mb(a.PublicKey().MarshalBinary()))
+				if i == 0 {
+					sig0 = bls.Sign(a, msg)
+				}
+			}
+			id := make([]byte, len(enc[0]))
+			id[0] = 0xc0
+			return append(enc, id), sig0
+		}
+		e1, s1 := mk1()
+		e2, s2 := mk2()
+		idSig1 := make([]byte, len(s1))
+		idSig1[0] = 0xc0
+		idSig2 := make([]byte, len(s2))
+		idSig2[0] = 0xc0
+		tab = append(tab,
+			reuse{name: "bls.PublicKey[G1]", n: 3, enc: func(i int) []byte { return e1[i] },
+				newObj: func() any { return new(bls.PublicKey[bls.G1]) },
+				dec:    func(o any, b []byte) error { return o.(*bls.PublicKey[bls.G1]).UnmarshalBinary(b) },
+				observe: func(o any) string {
+					k := o.(*bls.PublicKey[bls.G1])
+					return fmt.Sprintf("valid=%v verify0=%v verifyId=%v pk=%x", k.Validate(), bls.Verify(k, msg, s1), bls.Verify(k, msg, idSig1), mb(k.MarshalBinary()))
+				}},
+			reuse{name: "bls.PublicKey[G2]", n: 3, enc: func(i int) []byte { return e2[i] },
+				newObj: func() any { return new(bls.PublicKey[bls.G2]) },
+				dec:    func(o any, b []byte) error { return o.(*bls.PublicKey[bls.G2]).UnmarshalBinary(b) },
+				observe: func(o any) string {
+					k := o.(*bls.PublicKey[bls.G2])
+					return fmt.Sprintf("valid=%v verify0=%v verifyId=%v pk=%x", k.Validate(), bls.Verify(k, msg, s2), bls.Verify(k, msg, idSig2), mb(k.MarshalBinary()))
+				}},
+		)
+	}
 	// ---- KEM keys (Unpack into a used object)
 	{
 		var pk, sk, ct [][]byte
@@ -460,8 +514,12 @@ func TestC11SeqReuse(t *testing.T) {
 				last := 0
 				for j := 0; j < k; j++ {
 					i := rapid.IntRange(0, r.n-1).Draw(t, "i")
-					if err := r.dec(obj, r.enc(i)); err != nil {
+					buf := append([]byte{}, r.enc(i)...)
+					if err := r.dec(obj, buf); err != nil {
 						t.Fatalf("harness: %s: valid encoding %d refused: %v", r.name, i, err)
+					}
+					for bi := range buf { // the decoded object must not alias the caller's buffer
+						buf[bi] ^= 0xa5
 					}
 					hist += fmt.Sprintf("decode(#%d) ", i)
 					last = i
